@@ -87,9 +87,13 @@ def dedup : List Bytes → List Bytes
   | [] => []
   | a :: l => if a ∈ l then dedup l else a :: dedup l
 
+/-- Order of the storage-trie iterator: byte-lexicographic, except that a key that is a proper prefix of
+    another comes AFTER it (the value slot of a branch node is visited after its 16 children; in
+    `keybytesToHex` terms the terminator nibble 16 sorts last). -/
 def bytesLe : Bytes → Bytes → Bool
-  | [], _ => true
-  | _ :: _, [] => false
+  | [], [] => true
+  | [], _ :: _ => false
+  | _ :: _, [] => true
   | a :: as, b :: bs => if a < b then true else if b < a then false else bytesLe as bs
 
 def insertKey (k : Bytes) : List Bytes → List Bytes
@@ -440,6 +444,57 @@ def step (cfg : Cfg) (st : State) : Op → State
   | .endBlock n => endBlock st n
 
 def run (cfg : Cfg) (st : State) (ops : List Op) : State := ops.foldl (step cfg) st
+
+/-! ## the stake opcodes (vm/instructions.go: opStake / opUnStake / opUnStakeAll)
+
+The executing contract `contract` (a 20-byte address, `thisAddress`) acts for the miner whose account it is
+(`GetMinerIdByAccount`, i.e. through the block-stale iterator); `origin` is `evm.Origin`. They mutate the
+same registry through `AddStake` / `GetRefundStake` and write refunds straight into the escrow
+(`RefundManager.Add`), bypassing `context["refund"]`. -/
+
+/-- `RefundManager.Add` of one entry. -/
+def State.escAdd (st : State) (h : Nat) (a : Bytes) (v : Nat) : State := st.setEsc h a (st.escOf h a + v)
+
+/-- whole tokens of a wei amount as the opcodes compute them (`BigIntToStrWithoutDot` + `ParseUint`). -/
+def wholeTokens (money : Nat) : Nat := money / wei
+
+/-- STAKE: a value that does not fit `uint64` fails to parse → `false`, nothing happens. -/
+def vmStake (cfg : Cfg) (st : State) (contract : Bytes) (money : Nat) : State :=
+  if wholeTokens money > maxU64 then st
+  else match byAccount cfg st contract with
+    | none => st
+    | some id => (addStake cfg st contract id (wholeTokens money)).2
+
+/-- UNSTAKE: the stake drops by the whole tokens of `money` (parse overflow is ignored and yields
+    `MaxUint64` = everything); `money` itself — not its truncation — is escrowed for `origin`, plus the
+    excess `real − money` for the miner's account when more was released than asked. -/
+def vmUnstake (cfg : Cfg) (st : State) (origin contract : Bytes) (money : Nat) : State :=
+  match byAccount cfg st contract with
+  | none => st
+  | some id =>
+    let mwd := if wholeTokens money > maxU64 then maxU64 else wholeTokens money
+    match getMiner cfg st id with
+    | none => st
+    | some m =>
+      if contract ≠ m.account then st
+      else if m.stake < refundMoney m mwd then st
+      else
+        let real := refundMoney m mwd * wei
+        let h := st.height + refundDelay
+        let st1 := refundCore cfg st id contract m (refundMoney m mwd)
+        let st2 := if real > money then st1.escAdd h m.account (real - money) else st1
+        st2.escAdd h origin money
+
+/-- UNSTAKEALL: `false` = the opcode returns an error and the call is reverted. -/
+def vmUnstakeAll (cfg : Cfg) (st : State) (contract : Bytes) : Bool × State :=
+  match byAccount cfg st contract with
+  | none => (false, st)
+  | some id =>
+    match getMiner cfg st id with
+    | none => (false, st)
+    | some m =>
+      if contract ≠ m.account then (false, st)
+      else (true, (refundCore cfg st id contract m m.stake).escAdd (st.height + refundDelay) m.account (m.stake * wei))
 
 /-- `MinerManager.InsertMiner` (genesis: no debit, no account/id cross-check). -/
 def insertMiner (cfg : Cfg) (st : State) (info : Info) (stake status : Nat) (account : Bytes) : Int × State :=
